@@ -111,6 +111,40 @@ def definitional(rng):
     return out
 
 
+def inference_systems(rng, tier):
+    """small constraint systems as functions, well typed or not (clashes, infinite types, cycles through field accesses): every
+    sequence of <= 2 statements `let v = [x; e(t)]` over three parameters (the universe of spec/FoInferSmall.tla) and every
+    sequence of <= 3 statements of the field family of spec/FoResolverMC.tla; quick samples them.  The resolver must reach its
+    fixpoint (or a diagnostic) on all of them."""
+    head = ("package main\n\nimport frt\n\ntype IR1 = {A: int; B: string}\ntype IR3 = {C: int; D: string}\ntype IBox<T> = {Val: T; Tag: string}\n\n"
+            "type IOpt<T> =\n| ISome of T\n| INone\n\nlet iwrap x =\n  {Val=x; Tag=\"w\"}\n\n")
+    atoms = ["a", "b", "c", "1", '"s"']
+    rhs = list(atoms) + ["[%s]" % x for x in atoms] + ["(%s, %s)" % (x, y) for x in atoms for y in atoms] + ["ISome %s" % x for x in atoms] + \
+          ['{Val=%s; Tag="t"}' % x for x in atoms]
+    eqs = ["[%s; %s]" % (x, t) for x in ("a", "b", "c") for t in rhs]
+    fld = ["%s.%s + 1" % (x, f) for x in ("a", "b") for f in ("A", "C", "Val")] + \
+          ["[a.%s; b.%s]" % (f, g) for f in ("A", "C", "Val") for g in ("A", "C", "Val")] + \
+          ["[%s; %s]" % (x, w) for x in ("a", "b") for w in ('{A=1; B="s"}', '{C=3; D="d"}', "iwrap c", '{Val=2; Tag="t"}')] + \
+          ["[a; b]", "[a.Val; c]", "[b.Val; c]", "c + 1", "[a; iwrap d]", "[b; iwrap d]", "d + 1", "[c; d]"]
+
+    def fn(stmts):
+        n = len(stmts)
+        res = "v1" if n == 1 else "(" + ", ".join("v%d" % (i + 1) for i in range(n)) + ")" if n <= 3 else "v1"
+        return head + "let q a b c d =\n" + "".join("  let v%d = %s\n" % (i + 1, st) for i, st in enumerate(stmts)) + "  " + res + "\n"
+    out = []
+    seqs = [(e,) for e in eqs] + [(e,) for e in fld]
+    two = [(x, y) for x in eqs for y in eqs]
+    f2 = [(x, y) for x in fld for y in fld]
+    f3 = [(x, y, z) for x in fld for y in fld for z in fld]
+    if tier == "thorough":
+        seqs += two + f2 + f3
+    else:
+        seqs += rng.sample(two, 1200) + f2 + rng.sample(f3, 1500)
+    for sq in seqs:
+        out.append(("infer:" + " / ".join(sq), fn(list(sq))))
+    return out
+
+
 def buffers(rng, tier):
     """short whole-file buffers over the scanner-critical alphabet"""
     alpha = [" ", "\t", "/", "*", "\n", "a", "1", "\"", "\\", "`", "{", "}", "$"]
@@ -241,7 +275,8 @@ def run(ctx):
                 "arguments (3 arguments sampled in quick, all in thorough); (b) mutants of corpus programs and of 2 samples: truncation at "
                 "every offset, deletion / duplication of every token, swaps, indentation damage of every line, inserted delimiters / "
                 "keywords / stray and non-UTF-8 bytes, missing final newline, CRLF; (c) systematic self-application shapes, ill-typed and "
-                "extreme definitions (deep nesting, long chains, many definitions); (d) all buffers <= 3 (quick) / 4 (thorough) over the "
+                "extreme definitions (deep nesting, long chains, many definitions), small constraint systems as functions - well typed or not - from the "
+                "universes of spec/FoInferSmall.tla and the field family of spec/FoResolverMC.tla (quick: 3,800 sampled, thorough: all 49,000); (d) all buffers <= 3 (quick) / 4 (thorough) over the "
                 "13 scanner-critical characters plus random longer ones, alone and after a valid prefix; (e) white-box: scanTokenAt at every "
                 "position of every buffer <= 3 / 4 over those characters plus random longer ones, validated against FoLex.tla. One run of the real binary each, "
                 "time-out 20 s. distinct = distinct (arguments, contents); non-trivial = input differs from an unmodified program")
@@ -276,6 +311,7 @@ def run(ctx):
     for name, src in progs:
         singles += mutants(name, src, ctx.rng, ctx.tier == "thorough")
     singles += definitional(ctx.rng)
+    singles += inference_systems(ctx.rng, ctx.tier)
     singles += buffers(ctx.rng, ctx.tier)
     seen = set()
     k = 0
